@@ -68,7 +68,7 @@ def canon(d):
         return d
 
 
-def same(impl, model):
+def agree(impl, model):
     a, b = canon(impl), canon(model)
     if "S=?" in a:          # the private surplus dictionary is not available: compare the public answers only
         b = " ".join("S=?" if t.startswith("S=") else t for t in b.split(" "))
@@ -167,7 +167,7 @@ def unit_level(ctx):
     from jellyfysh.base.node import Node
     from harness.c11_run import Recorder, oracle
     rng = ctx.rng
-    N = ctx.n(1500, 40000)
+    N = ctx.n(1500, 50000)
     lines, checks = [], []    # checks[i] = (case, step label, impl answer, valid)
     n_valid_legs = 0
 
@@ -360,7 +360,7 @@ def unit_level(ctx):
     replies = ctx.model("occ", lines)
     nd = 0
     for line, (case, label, ans, valid), rep in zip(lines, checks, replies):
-        if not same(ans, rep):
+        if not agree(ans, rep):
             nd += 1
             ctx.disagree("occ." + ("initialize" if label == "initialize" else "update"),
                          dict(case, request=line), ans, rep)
@@ -383,7 +383,7 @@ def boundary_level(ctx):
     from jellyfysh.base.node import Node
     from jellyfysh.base.time import Time
     rng = ctx.rng
-    G = ctx.n(40, 600)
+    G = ctx.n(40, 800)
     per = ctx.n(60, 150)
     lines, impl = [], []
     for g in range(G):
@@ -470,11 +470,11 @@ def make_jobs(ctx, tmp):
     rng = ctx.rng
     jobs = []
     base = os.path.join(ctx.root, CONFIG_DIR)
-    ship_updates = ctx.n(1200, 20000)
+    ship_updates = ctx.n(1200, 24000)
     for k, ini in enumerate(SHIPPED):
         jobs.append({"name": "shipped:" + ini, "ini": os.path.join(base, ini), "overrides": {},
                      "seed": rng.randrange(2 ** 31), "max_updates": ship_updates})
-    for g in range(ctx.n(6, 36)):
+    for g in range(ctx.n(6, 42)):
         ini = SHIPPED[g % len(SHIPPED)] if g < 2 * len(SHIPPED) else rng.choice(SHIPPED)
         cp = configparser.ConfigParser()
         cp.read(os.path.join(base, ini))
@@ -484,7 +484,7 @@ def make_jobs(ctx, tmp):
         for sec in cp.sections():
             if cp.has_option(sec, "cells_per_side"):
                 if veto_water:
-                    cps = rng.choice(["4", "5", "6", "4, 5, 6", "7, 4, 5"])
+                    cps = rng.choice(["6", "7", "6, 7, 6", "5, 6, 7", "8, 6, 6"])   # smaller grids: empty Walker
                 else:
                     cps = rng.choice(["4", "5", "3, 4, 3", "5, 3, 4", "3, 5, 7", "4, 4, 6", "6, 3, 3"])
                 ov[sec] = {"cells_per_side": cps}
@@ -492,8 +492,14 @@ def make_jobs(ctx, tmp):
                 ov[sec] = {"chain_time": rng.choice([0.13, 0.4, 0.78965, 2.1])}
             if cp.has_option(sec, "initial_direction_of_motion"):
                 ov[sec] = {"initial_direction_of_motion": rng.randrange(3)}
-            if cp.has_option(sec, "cell_level") and rng.random() < 0.25:
-                ov[sec] = {"maximum_number_occupants": rng.choice([2, 3, 0])}
+            if cp.has_option(sec, "cell_level"):
+                # the shipped event handlers support one occupant per cell only; the power-bounded water set-up
+                # tolerates more as long as no cell really holds two oxygens
+                if ini == "water/coulomb_power_bounded_lj_cell_bounded.ini":
+                    if rng.random() < 0.5:
+                        ov[sec] = {"maximum_number_occupants": rng.choice([2, 3])}
+                elif rng.random() < 0.08:
+                    ov[sec] = {"maximum_number_occupants": rng.choice([2, 3, 0])}
         if rng.random() < 0.5:
             ov.setdefault("HypercubicSetting", {})["beta"] = rng.choice([0.5, 1, 4, 10])
         jobs.append({"name": "generated:" + ini, "ini": os.path.join(base, ini), "overrides": ov,
@@ -566,7 +572,7 @@ def run_level(ctx):
             sess = (m[0], m[1]["seed"])
             if m[3] == "initialize":
                 bad_sessions.discard(sess)
-            if not same(d, rep) and sess not in bad_sessions:
+            if not agree(d, rep) and sess not in bad_sessions:
                 bad_sessions.add(sess)      # after the first difference the two states differ anyway
                 ctx.disagree("occ.run-replay (%s)" % ("initialize" if m[3] == "initialize" else "update"),
                              {"layer": "run", "config": m[0], "overrides": m[1]["overrides"], "seed": m[1]["seed"],
@@ -574,6 +580,53 @@ def run_level(ctx):
         total = len(lines)
         ctx.count("run-calls-compared", total)
     return total
+
+
+def replay(ctx, case):
+    """re-evaluate a recorded failing input on the tree under test"""
+    c = case.get("case", case)
+    layer = c.get("layer")
+    if layer == "boundary":
+        import jellyfysh.setting as setting
+        from jellyfysh.setting import hypercubic_setting
+        from jellyfysh.activator.internal_state.cell_occupancy.cells.cuboid_periodic_cells import CuboidPeriodicCells
+        from jellyfysh.event_handler.cell_boundary_event_handler import CellBoundaryEventHandler
+        from jellyfysh.base.unit import Unit
+        from jellyfysh.base.node import Node
+        from jellyfysh.base.time import Time
+        dim, L = c["dim"], float.fromhex(c["L"])
+        hypercubic_setting.HypercubicSetting(beta=1.0, dimension=dim, system_length=L)
+        try:
+            setting.set_number_of_root_nodes(1); setting.set_number_of_nodes_per_root_node(1)
+            setting.set_number_of_node_levels(1)
+            cells = CuboidPeriodicCells(list(c["cells_per_side"]))
+            pos = [float.fromhex(x) for x in c["position"]]
+            d, v = c["direction"], float.fromhex(c["velocity"])
+            vel = [0.0] * dim
+            vel[d] = v
+            cell = cells.position_to_cell(pos)
+            h = CellBoundaryEventHandler()
+            h.initialize(cells, 1)
+            t = h.send_event_time([Node(Unit((0,), list(pos), None, vel, Time(0.0, 0.0)))])
+            npos = h.send_out_state()[0].value.position
+            want = cells.neighbor_cell(cell, d, v > 0)
+            got = cells.position_to_cell(npos)
+            return {"start_cell": cell.identifier, "time": t.quotient + t.remainder, "new_position": npos,
+                    "new_cell": got.identifier, "neighbour": want.identifier, "in_neighbour": got is want}
+        finally:
+            setting.reset()
+    if layer == "run":
+        with tempfile.TemporaryDirectory(prefix="c11_") as tmp:
+            job = {"name": "replay", "ini": os.path.join(ctx.root, c["ini"]), "overrides": c.get("overrides", {}),
+                   "seed": c["seed"], "max_updates": int(c.get("leg", 1000)) + 5, "tmp": tmp,
+                   "out": os.path.join(tmp, "out.json"), "job_file": os.path.join(tmp, "job.json"),
+                   "min_event_handlers": 80}
+            with open(job["job_file"], "w") as f:
+                json.dump(job, f)
+            res = run_job(ctx, job)
+            return {"failures": res["failures"], "error": res.get("error"), "stats": res.get("stats")}
+    return {"note": "unit-level cases come from the seeded generator: re-run ./check C11 with the VERIF_SEED and tier "
+                    "recorded in the replay file; the case lists geometry, units and the sequence of update calls"}
 
 
 def run(ctx):
